@@ -346,12 +346,12 @@ func sortedKeys(m map[string]bool) []string {
 	return out
 }
 
-func constCallArgs(fn *ssa.Function, calleeName string, argIdx int) []string {
+func (c *Ctx) constCallArgs(fn *ssa.Function, calleeName string, argIdx int) []string {
 	set := map[string]bool{}
 	for _, b := range fn.Blocks {
 		for _, in := range b.Instrs {
 			if call, ok := in.(*ssa.Call); ok {
-				if cal := call.Call.StaticCallee(); cal != nil && cal.Name() == calleeName && argIdx < len(call.Call.Args) {
+				if cal := call.Call.StaticCallee(); cal != nil && (cal.Name() == calleeName || c.P.InModule(cal) && c.P.RefName(cal) == calleeName) && argIdx < len(call.Call.Args) {
 					for _, s := range stringValuesOf(call.Call.Args[argIdx], 4) {
 						set[s] = true
 					}
@@ -501,7 +501,7 @@ func (c *Ctx) A10(rule string) []report.Obligation {
 		out = append(out, o)
 	}
 	if f := c.P.Func("loader.importResources"); f != nil {
-		check("loader.importResources", constCallArgs(f, "importResource", 2), want, "include import")
+		check("loader.importResources", c.constCallArgs(f, "importResource", 2), want, "include import")
 	} else {
 		out = append(out, anchorViolation(rule, "loader.importResources"))
 	}
